@@ -368,3 +368,41 @@ func VerifH_C10_bufferMultiColumnSort() {
 	}
 	vCover("sorted")
 }
+
+// C10.K1b: the sort interface of an optional column under arbitrary swaps (the
+// standard library's pdqsort makes non-adjacent swaps from 13 rows on; here the
+// swaps are chosen directly): after any sequence of Swap(i, j) the page holds
+// row i's value and level at the position the swaps moved it to.
+func VerifH_C10_optionalSwapsThenPage() {
+	vUnwind(64)
+	n := vChoose("n", 2, 4)
+	nullMask := vChoose("nulls", 0, 1<<n-1)
+	vals := make([]Value, n)
+	for i := 0; i < n; i++ {
+		if nullMask>>i&1 == 1 {
+			vals[i] = Value{}.Level(0, 0, 0)
+			continue
+		}
+		vals[i] = makeValueInt64(vI64("v")).Level(0, 1, 0)
+	}
+	col := newOptionalColumnBuffer(newInt64ColumnBuffer(Int64Type, 0, int32(n)), 1, nullsGoLast)
+	if _, err := col.WriteValues(vals); err != nil {
+		vAssert(false, "write")
+		return
+	}
+	want := append([]Value(nil), vals...)
+	for s := 0; s < 3; s++ {
+		i, j := vChoose("i", 0, n-1), vChoose("j", 0, n-1)
+		col.Swap(i, j)
+		want[i], want[j] = want[j], want[i]
+	}
+	out := verifReadAll(col.Page())
+	vAssert(len(out) == n, "page has every row")
+	for k := 0; k < n && k < len(out); k++ {
+		vAssert(out[k].IsNull() == want[k].IsNull(), "nulls end up where the swaps put them")
+		if !want[k].IsNull() && !out[k].IsNull() {
+			vAssert(out[k].Int64() == want[k].Int64(), "values end up where the swaps put them")
+		}
+	}
+	vCover("swapped")
+}
